@@ -330,10 +330,11 @@ def run(ctx):
                             break
                         if np.max(np.abs(Xb[r] - Xt[r]) / sd) > 1e-5:
                             ctx.count("draws_differ_by_svd_factor_only")
-                for nm, want_u in (("P", "d"), ("omega", "rad"), ("M0", "rad")):
+                # the jitter too: physically the same in base and twin (km/s), whatever unit the prior / library / data quote it in
+                for nm, want_u in (("P", "d"), ("omega", "rad"), ("M0", "rad"), ("s", "km/s")):
                     a = np.asarray(out_b[nm].to_value(gen.U(want_u)))
                     b = np.asarray(out_t[nm].to_value(gen.U(want_u)))
-                    if len(a) == len(b) and not np.allclose(a, b, rtol=1e-12, atol=1e-12):
+                    if len(a) == len(b) and not np.allclose(a, b, rtol=1e-12 if nm != "s" else 1e-9, atol=1e-12):
                         ctx.violation("nonlinear-not-unit-invariant", "%s of an accepted row differs physically between base and twin" % nm, wdesc)
                         break
             except Exception as e:
